@@ -319,6 +319,74 @@ def live_self_after_fork(_arg=None):
     return bad
 
 
+LIMIT_LABELS = {"RLIMIT_CPU": "Max cpu time", "RLIMIT_FSIZE": "Max file size", "RLIMIT_DATA": "Max data size", "RLIMIT_STACK": "Max stack size",
+                "RLIMIT_CORE": "Max core file size", "RLIMIT_RSS": "Max resident set", "RLIMIT_NPROC": "Max processes",
+                "RLIMIT_NOFILE": "Max open files", "RLIMIT_MEMLOCK": "Max locked memory", "RLIMIT_AS": "Max address space",
+                "RLIMIT_LOCKS": "Max file locks", "RLIMIT_SIGPENDING": "Max pending signals", "RLIMIT_MSGQUEUE": "Max msgqueue size",
+                "RLIMIT_NICE": "Max nice priority", "RLIMIT_RTPRIO": "Max realtime priority", "RLIMIT_RTTIME": "Max realtime timeout"}
+
+
+def _limits_of(pid):
+    out = {}
+    with open("/proc/%d/limits" % pid) as f:
+        for line in f.read().splitlines()[1:]:
+            for lab in LIMIT_LABELS.values():
+                if line.startswith(lab + " "):
+                    out[lab] = line[len(lab):].split()[:2]
+    return out
+
+
+def live_rlimit_names(_arg=None):
+    """every RLIMIT_* name psutil exports designates the kernel's resource of that name: a set through psutil changes exactly the
+    row the kernel prints under that resource's label in /proc/<pid>/limits (an oracle that does not use psutil's numbers), and a
+    get reads that row"""
+    import subprocess
+    import sys
+    from vf.harness import seams
+    try:
+        seams().uninstall()
+    except Exception:  # noqa: BLE001
+        pass
+    import psutil
+    bad = []
+    child = subprocess.Popen([sys.executable, "-S", "-c", "import time; time.sleep(60)"])
+    try:
+        pr = psutil.Process(child.pid)
+        names = sorted(n for n in dir(psutil) if n.startswith("RLIMIT_"))
+        for i, name in enumerate(names):
+            lab = LIMIT_LABELS.get(name)
+            if lab is None:
+                bad.append(("rlimit-names:unknown-constant", name))
+                continue
+            before = _limits_of(child.pid)
+            hard_s = before[lab][1]
+            hard = None if hard_s == "unlimited" else int(hard_s)
+            # a soft limit below the hard one (which stays: no capability is needed), far above anything the sleeping child uses
+            if hard is None or hard > 2 ** 40 + 1000:
+                v = 2 ** 40 + 7 * i
+            elif hard > 1000:
+                v = hard - 1 - i
+            else:
+                continue          # (hard limit 0, e.g. nice / realtime priority: no distinguishable soft value without privileges)
+            hv = psutil.RLIM_INFINITY if hard is None else hard
+            out = outcome(pr.rlimit, getattr(psutil, name), (v, hv))
+            after = _limits_of(child.pid)
+            changed = sorted(k for k in after if after[k] != before.get(k))
+            if out[0] != "ok":
+                bad.append(("rlimit-names:set-refused:%s" % name, "rlimit(%s, (%d, %s)) -> %r" % (name, v, hard_s, out[:2])))
+            elif changed != [lab] or after[lab] != [str(v), hard_s]:
+                bad.append(("rlimit-names:set-landed-elsewhere:%s" % name, "rlimit(%s, (%d, %s)): rows changed in /proc/<pid>/limits: %r (%r)"
+                            % (name, v, hard_s, changed, {k: after[k] for k in changed})))
+            g = outcome(pr.rlimit, getattr(psutil, name))
+            want = tuple(psutil.RLIM_INFINITY if x == "unlimited" else int(x) for x in after.get(lab, ["-2", "-2"]))
+            if g != ("ok", want):
+                bad.append(("rlimit-names:get-reads-another-row:%s" % name, "rlimit(%s) -> %r, the kernel's row %r says %r" % (name, g, lab, after.get(lab))))
+    finally:
+        child.kill()
+        child.wait()
+    return bad
+
+
 def debug_badstderr():
     """PSUTIL_DEBUG=1 with an unwritable stderr (closed / full): an invalid CPU list is still a ValueError"""
     code = ("import os, sys, psutil\n"
@@ -386,6 +454,8 @@ def sim_get_cases(thorough):
     cases += [("nice", n) for n in range(-20, 20)]
     for r in (1, 2, 8) + ((3, 4) if thorough else ()):
         cases += [("affinity", list(c)) for c in itertools.combinations(range(8), r)]
+    # masks that mix a CPU number >= 8 with smaller ones (a set of such ints does not iterate in ascending order)
+    cases += [("affinity", [1, 8]), ("affinity", [2, 9, 16]), ("affinity", [0, 15, 31, 32]), ("affinity", [8, 9, 10, 11, 3])]
     return cases
 
 
@@ -593,7 +663,7 @@ def run(ctx):
         for cause, msg in bad:
             viols.append({"cause": cause, "msg": msg, "case": {"get": list(c)}})
     if not ctx.alt:
-        for fn_, tag_ in ((live_self_after_fork, "fork-self"), (debug_badstderr, "debug-badstderr")):
+        for fn_, tag_ in ((live_self_after_fork, "fork-self"), (debug_badstderr, "debug-badstderr"), (live_rlimit_names, "rlimit-names")):
             for cause, msg in ctx.pmap_fresh(_call0, [fn_])[0]:
                 viols.append({"cause": cause, "msg": msg, "case": {"special": tag_}})
     bk = bigkernel_cases(ctx.thorough) if not ctx.alt else []
@@ -626,7 +696,7 @@ def replay(ctx, case):
     elif "get" in case:
         bad = sim_get(tuple(case["get"]))
     elif "special" in case:
-        bad = (live_self_after_fork if case["special"] == "fork-self" else debug_badstderr)()
+        bad = {"fork-self": live_self_after_fork, "rlimit-names": live_rlimit_names}.get(case["special"], debug_badstderr)()
     elif "bigkernel" in case:
         bad = bigkernel([case["bigkernel"]])[0]
     elif "refusal" in case:
